@@ -107,6 +107,10 @@ func vfVerdict(s string) ValidationResult {
 		return ValidationIgnore
 	case "U":
 		return ValidationResult(99)
+	case "N":
+		return ValidationResult(-1) // out of range too; happens to be the library's internal "throttled" value
+	case "Z":
+		return ValidationResult(3) // the first value above the defined ones
 	}
 	return ValidationAccept
 }
